@@ -941,3 +941,68 @@ class CvxOracle:
 
     def scipy_bounds(self):
         return [(-np.inf if lb is None else lb, np.inf if ub is None else ub) for lb, ub in self.model["data"]["bounds"]]
+
+
+def shared_constraint_prelude(P, built, salt=0, method="SLSQP"):
+    """An EARLIER Problem of the same process that re-uses one of P's constraint OBJECTS under another variable layout with
+    the same number of variables, the same first and the same last variable: one of P's variables that the constraint does
+    not mention is dropped, a fresh variable sorting right after one the constraint does mention is added, so that variable
+    sits in another column.  It is solved once on the NLP path (compiling the shared constraint) and thrown away.  Scenario
+    variants sharing rows are ordinary use; whatever optyx remembers of the earlier problem must not reach P.
+    Returns a label (for the coverage classes) or None when P has no suitable constraint."""
+    from optyx import Problem, Variable
+    flat = [c for item in built for c in (item if isinstance(item, (list, tuple)) else [item]) if hasattr(c, "get_variables")]
+    try:
+        pv = list(P.variables)
+    except Exception:
+        return None
+    names = [v.name for v in pv]
+    n = len(names)
+    cands = []
+    for ci, c in enumerate(flat):
+        try:
+            cv = {v.name for v in c.get_variables()}
+        except Exception:
+            continue
+        for i in range(1, n - 1):
+            if names[i] not in cv:
+                continue
+            for j in range(1, i):
+                if names[j] not in cv:
+                    cands.append((ci, i, j))
+    if not cands:
+        return None
+    ci, i, j = cands[salt % len(cands)]
+    c = flat[ci]
+    fresh = Variable(names[i] + "a", lb=-5.0, ub=5.0)
+    keep = [v for k, v in enumerate(pv) if k != j] + [fresh]
+    try:
+        P0 = Problem()
+        obj = None
+        for k, v in enumerate(keep):
+            t = (v - 0.5 * (k % 3)) ** 2
+            obj = t if obj is None else obj + t
+        P0.minimize(obj)
+        P0.subject_to(c)
+        n0 = [v.name for v in P0.variables]
+        if len(n0) != n or n0[0] != names[0] or n0[-1] != names[-1] or n0.index(names[i]) == i:
+            return "prelude:layout-not-reached"
+        with quiet_all():
+            P0.solve(method=method)
+    except Exception:
+        return "prelude:raised"
+    return "prelude:shared-constraint-other-layout"
+
+
+class quiet_all:
+    def __enter__(self):
+        import warnings
+        self._w = warnings.catch_warnings()
+        self._w.__enter__()
+        warnings.simplefilter("ignore")
+        self._e = np.errstate(all="ignore")
+        self._e.__enter__()
+
+    def __exit__(self, *a):
+        self._e.__exit__(*a)
+        self._w.__exit__(*a)
